@@ -170,6 +170,8 @@ def stress(rng, n):
         out.append(("stress%d" % i, "\n".join([
             "CASE stress%d mfs=%d conc=%d cache=%d frag=0/1 dead=0 small=1000000000%s" % (i, mfs, conc, cache, bg),
             "stress %d %d %d %d %d" % (threads, r.choice([60, 120]), r.choice([1, 2, 3]), r.rng(1, 10 ** 6), r.choice([0, 3, 10])),
+            # in every fourth run one more thread evaluates the merge triggers in a tight loop (what the background task does at each tick)
+        ] + (["prober 200000"] if i % 4 == 1 else []) + [
             "timeout 60000", "END"])))
     return out
 
@@ -233,7 +235,7 @@ def main(tier, seed):
         "rule": "7 targeted interleavings forced on the real code by parking a named thread at a verif schedule point (half-written "
                 "large entry vs reader remap, get vs merge, set vs merge, del vs del, get inside the merge loop, pool of one) plus "
                 "free-running stress (3-8 threads, 1-3 hot keys, unique values below and above the 8 KiB buffer, merges every 0-10 ms, "
-                "in every third run the background task checks the merge triggers every 1-3 ms, "
+                "in every third run the background task checks the merge triggers every 1-3 ms, in every fourth a thread evaluates them in a tight loop, "
                 "rollovers, pool sizes 1/2/8, cache 0/1/256); each timed history is checked per key by a Wing-Gong-Lowe "
                 "linearizability search against the map; afterwards pool-size+1 probe gets must complete",
         "samples": [cases[0][1], cases[-1][1]],
